@@ -296,6 +296,13 @@ func c11CheckX(docs []any, excludeKnown bool) {
 		vCover("out.one")
 	}
 	vAssert("C11.outputs", c11MultisetEq(got, want))
+	// "in a fixed order": which order is not documented, but it is a function
+	// of the input alone - a second evaluation with every map range of the
+	// evaluator reversed yields the same sequence
+	vOrderGlobal(1)
+	got2, err2 := c11Eval(docs)
+	vOrderGlobal(0)
+	vAssert("C11.order.fixed", err2 == nil && vEq(got2, got))
 }
 
 // HarnessC11_output: one document, map-rooted, depth <= 2 (quick) / 3 (thorough).
